@@ -184,9 +184,16 @@ def run_tool(which, argv):
         return status, out.getvalue(), err.getvalue(), exc
 
 
+RECENT = []  # the last conversions made in this process: a conversion must not depend on them, and a witness carries them
+
+
 def grid_case(case, rec, subprocess_mode=False):
     from vf.gen import docs
     grid, flags = case["grid"], case["flags"]
+    if not subprocess_mode and "before" not in case:
+        case["before"] = list(RECENT)
+        RECENT.append({"grid": grid, "flags": flags})
+        del RECENT[:-3]
     d = docs.scratch_dir()
     tag = case.get("tag", "x")
     src = os.path.join(d, f"c20-{tag}.csv")
@@ -282,7 +289,7 @@ def run_grids(spec, rec):
     for i in range(spec["n"]):
         grid, dup = rand_grid(rng)
         flags = {"no_header": rng.random() < .25, "whitespace": rng.random() < .25, "reverse": rng.random() < .25}
-        case = {"part": "grid", "grid": grid, "flags": flags, "tag": f"{spec['stream']}"}
+        case = {"part": "grid", "grid": grid, "flags": flags, "tag": f"{spec['stream']}", "ctx": {"seed": spec["seed"], "stream": spec["stream"], "i": i}}
         grid_case(case, rec)
         rec.case((tuple(map(tuple, grid)), tuple(sorted(flags.items()))), nontrivial=len(grid) * len(grid[0]) >= 2)
         if i == 0:
@@ -310,5 +317,19 @@ def run_shard(spec, rec):
 
 
 def replay(case, rec):
+    if case.get("ctx"):
+        # what a conversion does may depend on every conversion the process made before: the whole prefix of the stream is run again
+        c = case["ctx"]
+        run_grids({"seed": c["seed"], "stream": c["stream"], "n": c["i"] + 1}, rec)
+        return
+    if case.get("before"):
+        from vf.rec import Recorder
+        mute = Recorder("C20")
+        for b in case["before"]:
+            # the conversions made before it in the same process (their outcomes are not judged here)
+            try:
+                grid_case({"part": "grid", "grid": b["grid"], "flags": b["flags"], "tag": "before", "before": []}, mute)
+            except Exception:  # noqa: BLE001
+                pass
     grid_case(case, rec, subprocess_mode=case.get("part") == "grid-subprocess")
     rec.case(("replay", str(case)[:80]))
